@@ -11,7 +11,9 @@ Cfgs == <<[xref |-> FALSE, objstm |-> FALSE, compress |-> TRUE, version |-> "1.7
           [xref |-> TRUE, objstm |-> TRUE, compress |-> TRUE, version |-> "1.5"], [xref |-> FALSE, objstm |-> FALSE, compress |-> FALSE, version |-> "1.4"],
           [xref |-> TRUE, objstm |-> FALSE, compress |-> FALSE, version |-> "1.7"]>>
 \* passwords as code points: empty, ASCII, with delimiters, Latin-1, CJK + astral, 40 characters
-Pws == << <<>>, <<117, 115, 101, 114>>, <<112, 40, 119, 41, 92>>, <<112, 228, 223>>, <<20013, 128512>>, [i \in 1..40 |-> 65 + (i % 26)] >>
+\* ... and 31 ASCII characters followed by U+00E9: in UTF-8 the 32-byte cut of revisions 2-4 falls inside that character
+Pws == << <<>>, <<117, 115, 101, 114>>, <<112, 40, 119, 41, 92>>, <<112, 228, 223>>, <<20013, 128512>>, [i \in 1..40 |-> 65 + (i % 26)],
+          [i \in 1..31 |-> 97 + (i % 26)] \o <<233, 120, 121>> >>
 \* permissions: everything, nothing (only the reserved bits), print only, copy only, fill forms only
 Ps == <<0 - 4, 0 - 3904, 0 - 3900, 0 - 3888, 0 - 3648>>
 Case(k) == [strength |-> Strengths[(k % 4) + 1], cfg |-> Cfgs[((k \div 4) % Len(Cfgs)) + 1],
